@@ -59,7 +59,7 @@ CONFIG = [
      "fuel": "(data.length + 2)"},
 ]
 
-LEAN_TY = {"int": "Int", "bool": "Bool", "bytes": "List Int", "valueobj": "Int", "unit": "Unit"}
+LEAN_TY = {"int": "Int", "bool": "Bool", "bytes": "(List Int)", "valueobj": "Int", "unit": "Unit"}
 EXC = {"ValueError": ".ValueError", "RuntimeError": ".RuntimeError", "TypeError": ".TypeError",
        "ZeroDivisionError": ".ZeroDivisionError"}
 
@@ -122,7 +122,8 @@ class Module:
                 for m in self.world.values():
                     if os.path.basename(m.path)[:-3] == base:
                         for al in st.names:
-                            self.imported[al.asname or al.name] = (m.tag, al.name)
+                            if al.name in m.consts:
+                                self.imported[al.asname or al.name] = (m.tag, al.name)
             elif isinstance(st, ast.Assign) and len(st.targets) == 1 and isinstance(st.targets[0], ast.Name):
                 name = st.targets[0].id
                 try:
@@ -557,14 +558,17 @@ class FnTr:
         self.ret_type = rt
         return f".ok {res}" if res.startswith("(") else f".ok ({res})"
 
-    def stmts(self, body, idx, env, loop):
-        """translate body[idx:]; `loop` = (carried variable names) when inside a loop body, else None"""
+    def stmts(self, body, idx, env, loop, end=None):
+        """translate body[idx:]; `loop` = (carried variable names) when inside a loop body, else None;
+        `end(env)` = code for normal completion of the list (default: next iteration / leave the function)"""
         if idx >= len(body):
+            if end is not None:
+                return end(env)
             if loop is not None:
                 return f".ok ({tup(loop)}, false)"
             return self.finish(env)
         st = body[idx]
-        rest = lambda env2: self.stmts(body, idx + 1, env2, loop)
+        rest = lambda env2: self.stmts(body, idx + 1, env2, loop, end)
         if isinstance(st, ast.Expr):
             v = st.value
             if isinstance(v, ast.Constant) and isinstance(v.value, str):
@@ -664,7 +668,7 @@ class FnTr:
                 raise Unsupported("break outside a loop")
             return f".ok ({tup(loop)}, true)"
         if isinstance(st, ast.If):
-            return self.if_stmt(st, body, idx, env, loop)
+            return self.if_stmt(st, body, idx, env, loop, end)
         if isinstance(st, ast.For):
             return self.for_stmt(st, env, rest)
         if isinstance(st, ast.While):
@@ -707,11 +711,11 @@ class FnTr:
                 return False
         return True
 
-    def if_stmt(self, st, body, idx, env, loop):
+    def if_stmt(self, st, body, idx, env, loop, end):
         following = body[idx + 1:]
         if has_ctrl(st.body) or has_ctrl(st.orelse):
-            T = self.stmts(list(st.body) + following, 0, dict(env), loop)
-            E = self.stmts(list(st.orelse) + following, 0, dict(env), loop)
+            T = self.stmts(list(st.body) + following, 0, dict(env), loop, end)
+            E = self.stmts(list(st.orelse) + following, 0, dict(env), loop, end)
             return self.cond(st.test, env, T, E)
         a_then, a_else = assigned_vars(st.body), assigned_vars(st.orelse)
         top_then = {t.id for s in st.body if isinstance(s, ast.Assign) for t in s.targets if isinstance(t, ast.Name)}
@@ -719,11 +723,10 @@ class FnTr:
         carried = sorted(v for v in (a_then | a_else) if v in env or (v in top_then and v in top_else))
         # types of the carried variables after the statement
         envT, envE = dict(env), dict(env)
-        endT = lambda e: (envT.update(e), f"{tup(carried)}")[1]
         pure = self.pure(st.test, env) and self.pure_block(st.body, env) and self.pure_block(st.orelse, env)
         ok = (lambda s: s) if pure else (lambda s: f".ok {s}" if s.startswith("(") else f".ok ({s})")
-        T = self.block(st.body, dict(env), loop, lambda e: (envT.update(e), ok(tup(carried)))[1])
-        E = self.block(st.orelse, dict(env), loop, lambda e: (envE.update(e), ok(tup(carried)))[1])
+        T = self.stmts(st.body, 0, dict(env), loop, lambda e: (envT.update(e), ok(tup(carried)))[1])
+        E = self.stmts(st.orelse, 0, dict(env), loop, lambda e: (envE.update(e), ok(tup(carried)))[1])
         env2 = dict(env)
         for v in carried:
             tT, tE = envT.get(v), envE.get(v)
@@ -731,7 +734,7 @@ class FnTr:
                 raise Unsupported(f"{v} is not assigned with one type in both branches")
             env2[v] = tT
         tys = lean_ty(("tuple", [env2[v] for v in carried]))
-        restc = self.stmts(body, idx + 1, env2, loop)
+        restc = self.stmts(body, idx + 1, env2, loop, end)
         if pure:
             if not carried:
                 return restc
@@ -739,49 +742,6 @@ class FnTr:
             return f"let {tup(carried)} : {tys} :=\n  if {self.as_bool(txt, ty)} then\n{ind(T, 4)}\n  else\n{ind(E, 4)}\n{restc}"
         c = self.cond(st.test, env, T, E)
         return f"Py.bind (α := {tys}) (\n{ind(c)}) fun {tup(carried) if carried else '_'} =>\n{restc}"
-
-    def block(self, stmts, env, loop, end):
-        """a nested block whose normal completion yields `end(env)`; loops/breaks inside are not allowed to escape"""
-        saved = self.stmts
-
-        def go(i, env):
-            if i >= len(stmts):
-                return end(env)
-            # translate statement i with the remainder of the block as its continuation
-            return self._one(stmts, i, env, loop, go)
-        return go(0, env)
-
-    def _one(self, stmts, i, env, loop, go):
-        # reuse `stmts` by temporarily treating the block as a list whose end is `go(len)`
-        outer = self
-        class _Proxy(FnTr):
-            pass
-        # simple approach: a tiny re-implementation through a patched end-of-list hook
-        return outer._stmts_with_end(stmts, i, env, loop, lambda e: go(len(stmts), e))
-
-    def _stmts_with_end(self, body, idx, env, loop, end):
-        if idx >= len(body):
-            return end(env)
-        # run `stmts` on a one-statement view by swapping the end-of-list behaviour
-        saved_finish, self._end_hook = getattr(self, "_end_hook", None), end
-        try:
-            return self._stmts_hooked(body, idx, env, loop)
-        finally:
-            self._end_hook = saved_finish
-
-    def _stmts_hooked(self, body, idx, env, loop):
-        hook = self._end_hook
-        orig = FnTr.stmts
-
-        def patched(self_, b, i, e, l):
-            if b is body and i >= len(b):
-                return hook(e)
-            return orig(self_, b, i, e, l)
-        FnTr.stmts = patched
-        try:
-            return patched(self, body, idx, env, loop)
-        finally:
-            FnTr.stmts = orig
 
     def loop_state(self, st, env):
         carried = sorted(v for v in assigned_vars(st.body) if v in env)
@@ -823,8 +783,7 @@ class FnTr:
         sty = lean_ty(tys)
         pat = tup(carried) if carried else "_"
         test, tt, _ = self._expr(st.test, env)
-        saved_outs = None
-        bodyc = self._stmts_with_end(st.body, 0, dict(env), None, lambda e: f".ok {tup(carried)}" if tup(carried).startswith("(") else f".ok ({tup(carried)})")
+        bodyc = self.stmts(st.body, 0, dict(env), None, lambda e: f".ok {tup(carried)}" if tup(carried).startswith("(") else f".ok ({tup(carried)})")
         code = (f"Py.bind (Py.whileLoop (fun (s : {sty}) => let {pat} := s; {self.as_bool(test, tt)})\n"
                 f"    (fun (s : {sty}) =>\n      let {pat} := s\n{ind(bodyc, 6)})\n    {fuel} ({tup(carried)} : {sty})) fun {pat} =>\n{rest(env)}")
         return code
